@@ -56,6 +56,23 @@ def checkHandlersOrder (j : Json) : Except String Verdict := do
   if jBoolD o "hang" false then
     return { nontrivial := true, mismatch := none, specfail := some s!"C07.no_deadlock: update, lookup and handler registration did not all finish: {ev}" }
   let idx (e : String) : Option Nat := ev.findIdx? (· == e)
+  if jStrD j "kind" "" = "registration" then
+    -- the lookup at the end returns the content of the second update; the handler registered meanwhile has seen it
+    let sf : Option String :=
+      match ev.findIdx? (fun e => e.startsWith "get ") with
+      | none => some s!"C07: no lookup result: {ev}"
+      | some g =>
+        let res := ((ev.getD g "").drop 4).toString
+        if res != s!"val:{n}#2" then some s!"C07.linearizable: after two accepted updates the lookup returned {res}: {ev}"
+        else match idx s!"H2 saw {n}#2" with
+          | some k =>
+            if k ≥ g then some s!"C07.policy_before_data: the handler saw {n}#2 only after the lookup exposed it: {ev}"
+            else match (ev.filter (fun e => e.startsWith "H2 applied ")).getLast? with
+              | some a => if a = s!"H2 applied {n}#2" then none
+                          else some s!"C07.policy_before_data: the last content the handler applied is '{(a.drop 11).toString}', older than what lookups are served ({n}#2): the replay of a registration ran after a newer update: {ev}"
+              | none => some s!"C07: the handler never completed: {ev}"
+          | none => some s!"C07.policy_before_data: a handler whose registration overlapped the update never saw {n}#2 although it is registered and the lookup exposes that content: {ev}"
+    return { nontrivial := true, mismatch := none, specfail := sf }
   let sf : Option String :=
     match ev.findIdx? (fun e => e.startsWith "get val:") with
     | none => some s!"C07: the lookup of the delivered resource did not return it: {ev}"
@@ -196,6 +213,10 @@ def check (pid : String) (j : Json) : Except String Verdict := do
         sf := some s!"C06.no_lost_wakeup: lookup {t} of {n}: the resource was accepted before its deadline, but it returned '{res}'"
       else if supplied && forced.contains t then
         sf := some s!"C06.no_lost_wakeup: lookup {t} of {n} was supplied but returned only because its deadline was fired"
+      -- one caller is affected only by what concerns its own name: the "removed again" error needs a response that
+      -- supplied the name while the lookup was under way
+      else if res = "err:other" && !(delivers.any (fun (d, items) => d > sIdx && d < dIdx && items.any (fun it => it.1 = n))) then
+        sf := some s!"C06.only_own_name: lookup {t} of {n} was ended with the removed-error although no response supplied {n} while it waited (it was woken by an update for other names)"
     if pid = "C07" && sf.isNone then
       if res.startsWith "val:" then
         let v := (res.drop 4).toString
